@@ -36,6 +36,11 @@ RULES = [
     'are implicit parameters of the methods',
     'a default value computed by a call is charged to the function entry: numpy.random.<x>(..) / random.<x>(..) is a '
     'GlobalDraw, a clock or a generator constructor is Unknown, numpy / builtin calls are effect free, anything else Unknown',
+    'X = np.empty(..) / np.empty_like(..) is hidden allocator state: accepted only if the block that creates X stores into X '
+    '(or into a row view obtained by iterating over X / zip(.., X, ..)) on every path before X is read -- a store at the top '
+    'level of the block, or for loops whose bodies store at their top level with no continue / break / return before the '
+    'store; otherwise the event Uninit (rejected). That the index expressions of the stores cover every element is NOT '
+    'verified statically (validated by the allocator-poisoning stream of the dynamic harness)',
     'implicit exceptions raised inside NumPy are not modelled outside try blocks (they abort the call and are functions of '
     'the data); inside a try block every statement may raise',
 ]
@@ -1550,7 +1555,137 @@ class Tr:
                 continue
             out.append(self.U(f.node, 'decorated function'))
         out += self.default_value_events()
+        out += self.uninit_events()
         return seq(out + self.stmts(f.node.body))
+
+    # ---- storage from np.empty / np.empty_like -------------------------------------------------------------------------
+    UNINIT_CTORS = {'numpy.empty', 'numpy.empty_like', 'numpy.ndarray'}
+
+    def uninit_events(self):
+        """X = np.empty(..) holds whatever the allocator left there.  Accepted only if, in the block that creates X, a store
+        into X (X[..] = .., or v[..] = .. for a row view v obtained by `for .., v, .. in zip(.., X, ..)` / `for v in X`) is
+        executed on every path before X is read: a store at the top level of the block, or a for loop whose body stores at
+        its top level (recursively through nested for loops) with no continue / break / return before the store; and every
+        later for loop of the block that stores into X obeys the same rule.  Anything else is `Uninit` (hidden state)."""
+        f = self.fn
+        if f.kind == 'lambda':
+            bad = [x for x in ast.walk(f.node.body) if isinstance(x, ast.Call) and self.dotted(x.func) in self.UNINIT_CTORS]
+            return [('ev', ('Uninit', self.P.site(f, x, 'np.empty in a lambda'))) for x in bad]
+        out = []
+        handled = set()
+
+        def own_nodes(node):
+            """nodes of this function, not of nested defs / lambdas / classes"""
+            todo = list(ast.iter_child_nodes(node))
+            while todo:
+                x = todo.pop()
+                yield x
+                if not isinstance(x, (ast.FunctionDef, ast.AsyncFunctionDef, ast.Lambda, ast.ClassDef)):
+                    todo.extend(ast.iter_child_nodes(x))
+
+        def is_store_base(parents, x):
+            par = parents.get(id(x))
+            return isinstance(par, ast.Subscript) and isinstance(par.ctx, ast.Store) and par.value is x
+
+        def reads(t, al):
+            parents = {}
+            for a in [t] + list(own_nodes(t)):
+                for c in ast.iter_child_nodes(a):
+                    parents[id(c)] = a
+            for x in [t] + list(own_nodes(t)):
+                if isinstance(x, ast.Name) and x.id in al and isinstance(x.ctx, ast.Load) and not is_store_base(parents, x):
+                    return True
+            return False
+
+        def direct_store(t, al):
+            if isinstance(t, ast.Assign):
+                return any(isinstance(g, ast.Subscript) and isinstance(g.value, ast.Name) and g.value.id in al
+                           for g in t.targets)
+            return False
+
+        def any_store(t, al):
+            return any(isinstance(x, ast.Subscript) and isinstance(x.ctx, ast.Store) and isinstance(x.value, ast.Name)
+                       and x.value.id in al for x in [t] + list(own_nodes(t)))
+
+        def loop_aliases(L, al):
+            al = set(al)
+            it, tg = L.iter, L.target
+            if isinstance(it, ast.Call) and isinstance(it.func, ast.Name) and it.func.id == 'enumerate' and it.args and \
+                    isinstance(tg, ast.Tuple) and len(tg.elts) == 2:
+                it, tg = it.args[0], tg.elts[1]
+            if isinstance(it, ast.Name) and it.id in al and isinstance(tg, ast.Name):
+                al.add(tg.id)
+            if isinstance(it, ast.Call) and isinstance(it.func, ast.Name) and it.func.id == 'zip' and isinstance(tg, ast.Tuple) \
+                    and len(tg.elts) == len(it.args):
+                for a, g in zip(it.args, tg.elts):
+                    if isinstance(a, ast.Name) and a.id in al and isinstance(g, ast.Name):
+                        al.add(g.id)
+            return al
+
+        def jumps(t):
+            return any(isinstance(x, (ast.Continue, ast.Break, ast.Return)) for x in [t] + list(own_nodes(t)))
+
+        def loop_ok(L, al):
+            """every iteration of L stores into the buffer before anything can skip the store"""
+            if L.orelse:
+                return False
+            al = loop_aliases(L, al)
+            for b in L.body:
+                if direct_store(b, al):
+                    return True
+                if isinstance(b, ast.For) and any_store(b, loop_aliases(b, al)):
+                    return loop_ok(b, al)
+                if jumps(b):
+                    return False
+                if isinstance(b, ast.Assign) and any(isinstance(g, ast.Name) and g.id in al for g in b.targets):
+                    return False
+            return False
+
+        def analyse(X, node, rest):
+            al = {X}
+            found = False
+            for t in rest:
+                if isinstance(t, ast.Assign) and any(isinstance(g, ast.Name) and g.id == X for g in t.targets):
+                    break                                        # X rebound: the buffer is gone
+                if direct_store(t, al):
+                    found = True
+                    continue
+                if isinstance(t, ast.For) and any_store(t, loop_aliases(t, al)):
+                    if loop_ok(t, al):
+                        found = True
+                        continue
+                    return f'np.empty buffer {X}: a loop stores into it but some path of the loop body skips the store'
+                if not found and reads(t, al):
+                    return f'np.empty buffer {X} is read before a store that every path executes'
+            if not found:
+                return f'np.empty buffer {X} is not written on every path in the block that creates it'
+            return None
+
+        def blocks(node):
+            for fld in ('body', 'orelse', 'finalbody'):
+                b = getattr(node, fld, None)
+                if isinstance(b, list) and b and isinstance(b[0], ast.stmt):
+                    yield b
+            for h in getattr(node, 'handlers', []) or []:
+                yield h.body
+
+        def walk_block(block):
+            for j, t in enumerate(block):
+                if isinstance(t, (ast.FunctionDef, ast.AsyncFunctionDef, ast.ClassDef)):
+                    continue
+                if isinstance(t, ast.Assign) and len(t.targets) == 1 and isinstance(t.targets[0], ast.Name) and \
+                        isinstance(t.value, ast.Call) and self.dotted(t.value.func) in self.UNINIT_CTORS:
+                    handled.add(id(t.value))
+                    msg = analyse(t.targets[0].id, t, block[j + 1:])
+                    if msg:
+                        out.append(('ev', ('Uninit', self.P.site(f, t, msg))))
+                for b in blocks(t):
+                    walk_block(b)
+        walk_block(f.node.body)
+        for x in own_nodes(f.node):
+            if isinstance(x, ast.Call) and id(x) not in handled and self.dotted(x.func) in self.UNINIT_CTORS:
+                out.append(('ev', ('Uninit', self.P.site(f, x, 'np.empty result not bound to a plain variable'))))
+        return out
 
     def default_value_events(self):
         """Default values are evaluated once, when the def statement runs; a default that is computed by a call (anything
@@ -1603,7 +1738,7 @@ def strip_sites(c):
     if isinstance(c, tuple):
         if c and c[0] in ('if', 'loop'):
             return (c[0],) + tuple(strip_sites(x) for x in c[2:])
-        if c and c[0] in ('GlobalDraw',):
+        if c and c[0] in ('GlobalDraw', 'Uninit'):
             return (c[0],)
         if c and c[0] in ('DrawFrom', 'CallParam', 'Call', 'Reset', 'Write', 'FGlob', 'FdGlob'):
             return (c[0],) + tuple(strip_sites(x) for x in c[2:])
@@ -1766,8 +1901,8 @@ def c_event(e):
         return f'{k} {cstr(e[1])}'
     if k in ('RandPrim', 'Clock'):
         return k
-    if k == 'GlobalDraw':
-        return f'GlobalDraw {e[1]}'
+    if k in ('GlobalDraw', 'Uninit'):
+        return f'{k} {e[1]}'
     if k == 'DrawFrom':
         return f'DrawFrom {e[1]} {cstr(e[2])}'
     if k == 'CallParam':
@@ -1812,7 +1947,7 @@ def c_cmd(c, ind=2):
 
 def unknowns(c, out):
     if c[0] == 'ev':
-        if c[1][0] in ('Unknown', 'GlobalDraw'):
+        if c[1][0] in ('Unknown', 'GlobalDraw', 'Uninit'):
             out.append(c[1])
     elif c[0] == 'seq':
         for x in c[1]:
@@ -1900,7 +2035,7 @@ def emit(P):
                 report['flagged'].append(dict(fn=q, event='Unknown', msg=e[1]))
             else:
                 s = P.sites[e[1]]
-                report['flagged'].append(dict(fn=q, event='GlobalDraw', file=s['file'], line=s['line'], msg=s['what']))
+                report['flagged'].append(dict(fn=q, event=e[0], file=s['file'], line=s['line'], msg=s['what']))
         if f.exported and f.parent is None and any(g in f.all_params for g in gens):
             report['seeded_exported'].append(q)
     # module level problems become a pseudo function that can never pass
